@@ -577,3 +577,149 @@ func c07AutoBucketFirstUse(kind string, clients int) {
 	nontrivial(kind + "|auto-bucket-first-use")
 	emit("c07", "E")
 }
+
+// c07MetaStorm: simultaneous PUTs of one key, each with a metadata header of its own. A PUT keeps
+// the metadata of the object it replaces for every header it does not send itself (MergeMetadata),
+// so in every sequential order the object ends up carrying the headers of all of them. (The merge
+// reads the previous object before the backend lock is taken: known finding D35 when a header is lost.)
+func c07MetaStorm(kind string, rounds, clients int) {
+	s := newSess("c07", kind, SessOpts{})
+	emit("c07", "NOMODEL")
+	b := singleBucketName
+	if !isSingle(kind) {
+		s.MkBucket(b)
+	}
+	lost := 0
+	example := ""
+	for round := 0; round < rounds; round++ {
+		key := fmt.Sprintf("meta-storm/%d", round)
+		var wg sync.WaitGroup
+		start := make(chan struct{})
+		res := make([]Resp, clients)
+		for c := 0; c < clients; c++ {
+			wg.Add(1)
+			go func(c int) {
+				defer wg.Done()
+				<-start
+				res[c] = do(s.h, Req{Method: "PUT", Path: "/" + b + "/" + key, Body: []byte(fmt.Sprintf("body-%d", c)), Header: [][2]string{{fmt.Sprintf("X-Amz-Meta-Client%d", c), "1"}}})
+			}(c)
+		}
+		close(start)
+		doneCh := make(chan struct{})
+		go func() { wg.Wait(); close(doneCh) }()
+		if !waitOr(doneCh, 30*time.Second) {
+			emit("c07", "HANG", hs("simultaneous PUTs of one key with metadata did not complete"))
+			return
+		}
+		hd := do(s.h, Req{Method: "HEAD", Path: "/" + b + "/" + key})
+		var missing []string
+		for c := 0; c < clients; c++ {
+			if res[c].Status == 200 && hd.Header.Get(fmt.Sprintf("X-Amz-Meta-Client%d", c)) == "" {
+				missing = append(missing, fmt.Sprintf("x-amz-meta-client%d", c))
+			}
+		}
+		if len(missing) > 0 {
+			lost++
+			if example == "" {
+				example = fmt.Sprintf("round %d: all %d PUTs of %q acknowledged, the object carries %s and lacks %s", round, clients, key, metaField(hd.Header), strings.Join(missing, ", "))
+			}
+		}
+	}
+	if lost > 0 {
+		emit("c07", "BAD", hs(fmt.Sprintf("S:metadata-of-an-acknowledged-put-lost %s: %d simultaneous PUTs of one key, each with a metadata header of its own: in %d of %d rounds the object does not carry the headers of all of them, as it does in every sequential order (%s)", kind, clients, lost, rounds, example)))
+	} else {
+		emit("c07", "GOOD", hs(fmt.Sprintf("%s: %d rounds of %d simultaneous PUTs of one key with metadata headers of their own: the object carries all of them", kind, rounds, clients)))
+	}
+	nontrivial(kind + "|meta-storm")
+	s.end()
+}
+
+// c07MultiDeleteStorm: clients multi-delete and re-create interleaved sets of keys while others read
+// and list. A key named in an acknowledged multi-delete (and not written since) is gone; reads and
+// listings are answered throughout. (The race detector sees the rest in the -race run.)
+func c07MultiDeleteStorm(kind string, versioned bool, clients, rounds int) {
+	s := newSess("c07", kind, SessOpts{})
+	emit("c07", "NOMODEL")
+	b := singleBucketName
+	if !isSingle(kind) {
+		s.MkBucket(b)
+	}
+	if versioned {
+		s.SetVersioning(b, true)
+	}
+	var mu sync.Mutex
+	var bad []string
+	note := func(f string, a ...interface{}) {
+		mu.Lock()
+		if len(bad) < 5 {
+			bad = append(bad, fmt.Sprintf(f, a...))
+		}
+		mu.Unlock()
+	}
+	for round := 0; round < rounds; round++ {
+		// every client owns 4 keys of this round; all exist before the round starts
+		for c := 0; c < clients; c++ {
+			for i := 0; i < 4; i++ {
+				do(s.h, Req{Method: "PUT", Path: fmt.Sprintf("/%s/md/r%d-c%d-k%d", b, round, c, i), Body: []byte("x")})
+			}
+		}
+		var wg sync.WaitGroup
+		start := make(chan struct{})
+		for c := 0; c < clients; c++ {
+			wg.Add(1)
+			go func(c int) {
+				defer wg.Done()
+				<-start
+				if c%4 == 3 {
+					// a reader / lister
+					for i := 0; i < 4; i++ {
+						g := do(s.h, Req{Method: "GET", Path: fmt.Sprintf("/%s/md/r%d-c%d-k%d", b, round, (c+1)%clients, i)})
+						l := do(s.h, Req{Method: "GET", Path: "/" + b + "?prefix=md%2F"})
+						if g.Panic != "" || l.Panic != "" || l.Status != 200 || (g.Status != 200 && g.Status != 404) {
+							note("round %d: a read during the multi-deletes answers %d %s, a listing %d %s", round, g.Status, g.Panic, l.Status, l.Panic)
+						}
+					}
+					return
+				}
+				var sb strings.Builder
+				sb.WriteString("<Delete>")
+				for i := 0; i < 4; i++ {
+					sb.WriteString(fmt.Sprintf("<Object><Key>md/r%d-c%d-k%d</Key></Object>", round, c, i))
+				}
+				sb.WriteString("</Delete>")
+				r := do(s.h, Req{Method: "POST", Path: "/" + b + "?delete", Body: []byte(sb.String())})
+				if r.Status != 200 || r.Panic != "" || len(xmlBlocks(string(r.Body), "Deleted")) != 4 {
+					note("round %d: multi-delete of client %d answers %d %s with %d <Deleted> entries", round, c, r.Status, r.Panic, len(xmlBlocks(string(r.Body), "Deleted")))
+				}
+			}(c)
+		}
+		close(start)
+		doneCh := make(chan struct{})
+		go func() { wg.Wait(); close(doneCh) }()
+		if !waitOr(doneCh, 30*time.Second) {
+			emit("c07", "HANG", hs("simultaneous multi-object deletes did not complete"))
+			return
+		}
+		for c := 0; c < clients; c++ {
+			if c%4 == 3 {
+				continue
+			}
+			for i := 0; i < 4; i++ {
+				k := fmt.Sprintf("md/r%d-c%d-k%d", round, c, i)
+				if g := do(s.h, Req{Method: "GET", Path: "/" + b + "/" + k}); g.Status != 404 || g.Panic != "" {
+					note("round %d: %s was reported deleted by an acknowledged multi-delete and GET answers %d %s", round, k, g.Status, g.Panic)
+				}
+			}
+		}
+		if l := do(s.h, Req{Method: "GET", Path: "/" + b + "?prefix=" + queryEscape(fmt.Sprintf("md/r%d-", round))}); l.Status != 200 || l.Panic != "" || len(xmlContentsKeys(string(l.Body))) != 4*(clients/4) {
+			note("round %d: after the multi-deletes the listing answers %d %s with keys %q (the readers' %d keys are what is left)", round, l.Status, l.Panic, xmlContentsKeys(string(l.Body)), 4*(clients/4))
+		}
+	}
+	if len(bad) > 0 {
+		emit("c07", "BAD", hs(fmt.Sprintf("%s (versioned=%v): %d clients multi-deleting keys of their own while others read and list: %s", kind, versioned, clients, strings.Join(bad, "; "))))
+	} else {
+		emit("c07", "GOOD", hs(fmt.Sprintf("%s (versioned=%v): %d rounds of %d clients multi-deleting keys of their own while others read and list: every acknowledged delete took effect", kind, versioned, rounds, clients)))
+	}
+	nontrivial(fmt.Sprint(kind, versioned, "|multi-delete-storm"))
+	s.end()
+}
